@@ -38,6 +38,10 @@ def box(name, N):
         if N == 4:
             lows, ups = [0.0, -1.0, 3.0, 0.0], [2.0, 0.5, 3.25, 2.0]
         return lows[:N], ups[:N]
+    if name == "T":       # tiny sides (1e-6 .. 5e-6) next to the origin
+        return [2e-7] * N, [2e-7 + 1e-6 * (i + 1) for i in range(N)]
+    if name == "U":       # sides of a few 1e-9, symmetric about the origin
+        return [-1e-9 * (i + 1) for i in range(N)], [1e-9 * (i + 1) for i in range(N)]
     if name == "E":       # equal side lengths, different offsets per axis (a "cube" only by its widths)
         return [2.0 * i for i in range(N)], [2.0 * i + 1.0 for i in range(N)]
     if name == "D":       # bounds that are not ascending over the coordinates, very different lower bounds
@@ -65,6 +69,9 @@ ENDS = (-3.0, -2.8, -1.1, -0.7, 0.1, 0.3, 0.6, 1.3, 7.7)
 LATTICE_BOXES = tuple(f"L:{a}:{b}" for i, a in enumerate(ENDS) for b in ENDS[i + 1:])
 
 
+from iOpt.trial import FunctionType
+
+
 class Fault(Exception):
     pass
 
@@ -73,8 +80,13 @@ class EnvProblem(Problem):
     """Objective = environment.  answer(k, y) is asked for the k-th evaluation attempt (1-based)
     and may raise.  Every successful evaluation is logged as (y copy, value)."""
 
-    def __init__(self, N, lower, upper, answer, fresh_holder=False, int_bounds=False, constraints=0):
+    def __init__(self, N, lower, upper, answer, fresh_holder=False, int_bounds=False, constraints=0, discrete=0):
         super().__init__()
+        # declared discrete parameters (this solver searches the float variables only; the curve dimension stays N)
+        self.numberOfDisreteVariables = discrete
+        if discrete:
+            self.discreteVariableNames = np.array([f"d{i}" for i in range(discrete)], dtype=str)
+            self.discreteVariableValues = [["a", "b"] for _ in range(discrete)]
         self.fresh_holder = fresh_holder   # return a new FunctionValue instead of filling the supplied one
         self.numberOfFloatVariables = N
         self.numberOfObjectives = 1
@@ -105,6 +117,10 @@ class EnvProblem(Problem):
         self.attempts.append(y)
         v = self.answer(self.calls, y)
         self.log.append((y, v))
+        if self.numberOfConstraints and getattr(functionValue, "type", None) == FunctionType.CONSTRAINT:
+            # a Problem with constraints dispatches on the holder's type; this solver only ever asks for the objective,
+            # so a holder re-typed on the way here gets the constraint's value and the oracles see the difference
+            v = 7.25 + 0.125 * functionValue.functionID
         if self.fresh_holder:
             from iOpt.trial import FunctionValue
             out = FunctionValue(functionValue.type, functionValue.functionID)
@@ -187,12 +203,12 @@ class Snapshot:
 class SolverRun:
     def __init__(self, N=1, lower=None, upper=None, r=2.0, eps=0.01, itersLimit=20000, answer=None,
                  density=None, refine=False, listeners=(), problem=None, fresh_holder=False, other=None,
-                 int_bounds=False, constraints=0, probe=False, start_point=False):
+                 int_bounds=False, constraints=0, probe=False, start_point=False, discrete=0):
         lower = [0.0] * N if lower is None else lower
         upper = [1.0] * N if upper is None else upper
         self.N = N
         self.problem = problem if problem is not None else EnvProblem(N, lower, upper, answer, fresh_holder,
-                                                                             int_bounds, constraints)
+                                                                             int_bounds, constraints, discrete)
         self.probe = probe      # read-only queries of solver.evolvent between the calls
         kw = dict(eps=eps, r=r, itersLimit=itersLimit, refineSolution=refine)
         if density is not None:
